@@ -88,7 +88,7 @@ class Program:
         import re
         def rep(m):
             return self.inst.get(m.group(0), m.group(0))
-        return re.sub(r"[A-Za-z_][A-Za-z0-9_]*", rep, ty)
+        return re.sub(r"'?[A-Za-z_][A-Za-z0-9_]*", rep, ty)
 
     def ctor(self, v):
         if self.kind == "enum":
